@@ -13,7 +13,7 @@ Core tactics only.
 import OsmoVerif.Lemmas.World
 
 namespace OsmoVerif.World
-open OsmoVerif
+open OsmoVerif OsmoVerif.PyStr
 
 /-- the part of a transceiver the transmit-queue property is about -/
 def Trx.qr (t : Trx) : List Trxd.TxMsg × Bool := (t.txQueue, t.running)
@@ -623,4 +623,84 @@ theorem CmdEffect.cases {w w' : World} {i : Nat} (h : CmdEffect w i w') (k : Nat
       · exact ⟨rfl, rfl⟩
       · have hk := Option.some.inj hk
         exact ⟨congrArg Prod.fst hk, congrArg Prod.snd hk⟩
+/-! ### requests: POWEROFF -/
+
+/-- the TRXC datagram `d` carries the request `req` (`CTRLInterface.handle_rx`: decode, check the
+`CMD` signature, strip, split) -/
+def CtrlReq (d : List Nat) (req : List Str) : Prop :=
+  ∃ s, decodeUtf8 (d.take Gen.World.ctrlRecvSize) = some s ∧ startsWith s (lit "CMD") = true ∧
+    splitSpace (stripNul (strip (s.drop 4))) = req
+
+theorem handleRx_of_req {w : World} {i sa sp : Nat} {d : List Nat} {req : List Str} {trx : Trx}
+    (ht : w.trxs[i]? = some trx) (hreq : CtrlReq d req) :
+    (handleRx w i sa sp d).world = match parseCmd w i req with
+      | .ok (w', _) => w'
+      | .error _ => w := by
+  obtain ⟨s, hs, hst, hsp⟩ := hreq
+  unfold handleRx
+  simp only [ht, hs, hst, not_true_eq_false, if_false, hsp]
+  cases hp : parseCmd w i req with
+  | ok v => rfl
+  | error e => cases e <;> rfl
+
+theorem step_ctrl_of_req {w : World} {i sp : Nat} {d : List Nat} {req : List Str} {trx : Trx}
+    (ht : w.trxs[i]? = some trx) (hreq : CtrlReq d req) :
+    (step w (.ctrl i sp d)).world = match parseCmd w i req with
+      | .ok (w', _) => w'
+      | .error _ => w := by
+  simp only [step, ht]
+  exact handleRx_of_req ht hreq
+
+/-- `power_event_handler` never raises for an existing transceiver -/
+theorem powerEvent_ok {w : World} {i : Nat} {trx : Trx} (ht : w.trxs[i]? = some trx) (on : Bool) :
+    ∃ w', powerEvent w i on = .ok w' := by
+  unfold powerEvent
+  simp only [ht]
+  repeat' split
+  all_goals exact ⟨_, rfl⟩
+
+theorem ctrlCmdHandler_poweroff : ctrlCmdHandler [lit "POWEROFF"] = .ok (none, none) := rfl
+theorem verifyCmd_poweroff_poweron : verifyCmd [lit "POWEROFF"] "POWERON" 0 = false := by decide +kernel
+theorem verifyCmd_poweroff_poweroff : verifyCmd [lit "POWEROFF"] "POWEROFF" 0 = true := by decide +kernel
+theorem commonCmd_poweroff (t : Trx) : commonCmd t [lit "POWEROFF"] = .ok (.power false) := by
+    unfold commonCmd
+    simp only [verifyCmd_poweroff_poweron, verifyCmd_poweroff_poweroff, Bool.false_eq_true, if_false, if_true]
+    rfl
+theorem parseCmd_poweroff {w : World} {i : Nat} {trx : Trx} (ht : w.trxs[i]? = some trx) {w' : World}
+    (hw : powerEvent w i false = .ok w') : parseCmd w i [lit "POWEROFF"] = .ok (w', (0, [])) := by
+  unfold parseCmd
+  rw [ctrlCmdHandler_poweroff]
+  simp only [bind, Except.bind, ht, commonCmd_poweroff, applyAction, hw, pure, Except.pure]
+
+/-- POWEROFF of transceiver `i` empties the queue of `i` and of every child it manages and stops them;
+all other transceivers keep queue and power state -/
+theorem poweroff_effect {w : World} {i sp : Nat} {d : List Nat} {trx : Trx}
+    (ht : w.trxs[i]? = some trx) (hreq : CtrlReq d [lit "POWEROFF"]) (k : Nat) :
+    (k ∈ powerList trx i →
+      queueOf (step w (.ctrl i sp d)).world k = [] ∧ runningOf (step w (.ctrl i sp d)).world k = false) ∧
+    (k ∉ powerList trx i →
+      queueOf (step w (.ctrl i sp d)).world k = queueOf w k ∧
+      runningOf (step w (.ctrl i sp d)).world k = runningOf w k) := by
+  obtain ⟨w', hp⟩ := powerEvent_ok ht false
+  have hc := parseCmd_poweroff ht hp
+  rw [step_ctrl_of_req ht hreq, hc]
+  simp only []
+  obtain ⟨self, hs, hk⟩ := powerEvent_trxs hp
+  rw [ht] at hs; cases hs
+  have := hk k
+  constructor
+  · intro hm
+    rw [if_pos hm] at this
+    unfold queueOf runningOf
+    rw [this]
+    cases w.trxs[k]? <;> simp [powerUpd]
+  · intro hm
+    rw [if_neg hm] at this
+    unfold queueOf runningOf
+    rw [this]
+    exact ⟨rfl, rfl⟩
+
+example : CtrlReq (encodeUtf8 (lit "CMD POWEROFF\x00")) [lit "POWEROFF"] :=
+  ⟨lit "CMD POWEROFF\x00", by decide +kernel, by decide +kernel, by decide +kernel⟩
+
 end OsmoVerif.World
